@@ -188,4 +188,68 @@ example : Item.tok 7 ∈ (run ([.put 7] ++ [.putTerm] ++ [.add 2 [7] true false]
   late_registration_served St.init (by simp [St.init]) 7 2 false [.putTerm] []
 example : (run [.put 7, .putTerm, .add 2 [7] true false] St.init).lists 2 = [.tok 7] := by decide
 
+/-- the rule awaits nothing but `t` -/
+def Awaits (t : Nat) (r : Rule) : Prop := r.tags = [t] ∨ r.tags = []
+
+theorem awaits_erase {t : Nat} {r : Rule} (u : Nat) (h : Awaits t r) : Awaits t { r with tags := r.tags.erase u } := by
+  rcases h with h | h
+  · by_cases hu : t = u
+    · right; simp [h, hu]
+    · left; simp [h, hu]
+  · right; simp [h]
+
+theorem putLoop_rules (u : Nat) (rs : List Rule) : ∀ ls m,
+    (putLoop u rs ls m).1 = rs.map (fun r => { r with tags := r.tags.erase u }) := by
+  induction rs with
+  | nil => intro ls m; rfl
+  | cons r rs ih => intro ls m; simp only [putLoop, List.map_cons, ih]
+
+theorem addLoop_rule (t : Nat) (ts : List Nat) : ∀ (r : Rule) ls,
+    (addLoop ts r ls).1.port = r.port ∧ (addLoop ts r ls).1.prop = r.prop ∧ (Awaits t r → Awaits t (addLoop ts r ls).1) := by
+  induction ts with
+  | nil => intro r ls; exact ⟨rfl, rfl, id⟩
+  | cons a ts ih =>
+    intro r ls
+    simp only [addLoop]
+    obtain ⟨h1, h2, h3⟩ := ih { r with tags := r.tags.erase a }
+      (if ({ r with tags := r.tags.erase a } : Rule).tags.isEmpty then exec ls { r with tags := r.tags.erase a } a else ls)
+    exact ⟨h1, h2, fun h => h3 (awaits_erase a h)⟩
+
+/-- a propagating rule for port `w` that awaits nothing but `t` is registered -/
+def Waiting (t w : Nat) (s : St) : Prop := ∃ r ∈ s.rules, r.port = w ∧ r.prop = true ∧ Awaits t r
+
+theorem waiting_step (t w : Nat) (s : St) (op : Op) (h : Waiting t w s) : Waiting t w (step s op) := by
+  obtain ⟨r, hr, hw, hp, ha⟩ := h
+  cases op with
+  | put u =>
+    refine ⟨{ r with tags := r.tags.erase u }, ?_, hw, hp, awaits_erase u ha⟩
+    simp only [step, putLoop_rules]
+    exact List.mem_map.mpr ⟨r, hr, rfl⟩
+  | putTerm => exact ⟨r, hr, hw, hp, ha⟩
+  | add p tags pr tm => exact ⟨r, by simp only [step]; exact List.mem_append_left _ hr, hw, hp, ha⟩
+
+theorem waiting_run (t w : Nat) (ops : List Op) : ∀ s, Waiting t w s → Waiting t w (run ops s) := by
+  induction ops with
+  | nil => intro s h; exact h
+  | cons op ops ih => intro s h; exact ih _ (waiting_step t w s op h)
+
+theorem waiting_after_add (t w : Nat) (tm : Bool) (s : St) : Waiting t w (step s (.add w [t] true tm)) := by
+  obtain ⟨h1, h2, h3⟩ := addLoop_rule t (tagsOf (s.lists 0)) { port := w, tags := [t], prop := true, termn := tm } s.lists
+  exact ⟨_, by simp only [step]; exact List.mem_append_right _ (List.mem_singleton.mpr rfl), h1, h2, h3 (Or.inl rfl)⟩
+
+/-- **C19, hand-over to an early recovery, any history.** From *any* state, a recovery that registers `[t]` on the
+    producer port and then waits through arbitrary further operations `mid` (other tokens, other registrations, even a
+    termination token) receives `t` as soon as the producer puts it, and keeps it through `post`. Together with
+    `late_registration_served` the hand-over does not depend on which side comes first. -/
+theorem early_registration_served_any (s : St) (t w : Nat) (tm : Bool) (mid post : List Op) :
+    Item.tok t ∈ (run ([.add w [t] true tm] ++ mid ++ [.put t] ++ post) s).lists w := by
+  rw [run_append, run_append, run_append]
+  apply run_mono
+  obtain ⟨r, hr, hw, hp, ha⟩ := waiting_run t w mid _ (waiting_after_add t w tm s)
+  have := put_delivers _ t r hr (by rcases ha with h | h <;> simp [h]) hp
+  rw [hw] at this
+  exact this
+
+example : (run [.add 2 [7] true true, .put 3, .put 7, .putTerm] St.init).lists 2 = [.tok 7, .term] := by decide
+
 end SFV.C19Port
